@@ -180,6 +180,8 @@ func evalPureStmtBlock(vm *r.VM, stmtBlock *syntax.StmtBlock) (r.Element, error)
 		switch stmt.(type) {
 		case *syntax.ClassDeclareStmt:
 		case *syntax.FunctionDeclareStmt:
+		case *syntax.EmptyStmt:
+			// `；` separates statements: it is not the final expression of a block
 		default:
 			if rtnValue, err = evalStatement(vm, stmt); err != nil {
 				return nil, err
